@@ -126,7 +126,11 @@ func (g *gen) lit(t ty) string {
 	}
 	v := g.pool[g.r.Intn(len(g.pool))]
 	if t.bits < 7 {
-		v = 1 + v%((1<<(t.bits-1))-1)
+		m := (1 << (t.bits - 1)) - 1
+		if m < 1 {
+			return "1"
+		}
+		v = 1 + v%m
 	}
 	if t.k == kInt && g.r.Intn(2) == 0 {
 		g.feat["neg_literal"] = true
@@ -420,7 +424,7 @@ func (g *gen) arg(name string, class string, idx int) (decl string, inputs []str
 		g.feat["unsized_arg"] = true
 		return "uint", []string{"0x" + hexDigits(r, digits)}, ""
 	case class == "wide" && idx == 1:
-		t := ty{k: kUint, bits: []int{64, 64, 63, 33, 32, 1 + r.Intn(64)}[r.Intn(6)]}
+		t := ty{k: kUint, bits: []int{64, 64, 63, 33, 32, 3 + r.Intn(62)}[r.Intn(6)]}
 		g.vars = append(g.vars, gvar{name: name, t: t})
 		g.widths = append(g.widths, t.bits)
 		return t.String(), []string{inputFor(r, t)}, ""
@@ -466,7 +470,10 @@ func (g *gen) arg(name string, class string, idx int) (decl string, inputs []str
 //	"alias"    statement mix biased to rewiring, few widths
 //	"wide"     garbler argument is a [>1024]uint64 array (wire ids > 65535)
 //	"unsized"  unsized main arguments instantiated from the inputs
-func genProgram(r *hxlib.Rng, class string) *prog {
+func genProgram(r *hxlib.Rng, class string, idx int) *prog {
+	if class == "sweep" {
+		return sweepProgram(r, idx)
+	}
 	g := &gen{r: r, feat: map[string]bool{}, depth: 2}
 	nw := 1 + r.Intn(2)
 	if class == "mixed" {
@@ -531,4 +538,26 @@ func genProgram(r *hxlib.Rng, class string) *prog {
 	src := fmt.Sprintf("package main\n%sfunc main(a %s, b %s) (%s) {\n%s\treturn %s\n}\n",
 		types.String(), da, db, strings.Join(rtypes, ", "), g.sb.String(), strings.Join(rets, ", "))
 	return &prog{Src: src, GIn: ia, EIn: ib, Class: class, Feat: g.feat}
+}
+
+// sweepProgram: a fixed small program over a garbler array that ends just
+// below wire id 65536 and an evaluator integer of every width 1..64, so that
+// {zero}, {one} and the first allocated values cross the 16/32-bit id (and
+// 64k page) boundary at every alignment.
+func sweepProgram(r *hxlib.Rng, idx int) *prog {
+	k := idx / 9 // the class rotation has 9 entries
+	m := 1 + k%64
+	n := 1019 + (k/64)%5
+	ta := ty{k: kArr, bits: 64, n: n}
+	tb := ty{k: kUint, bits: m}
+	src := fmt.Sprintf(`package main
+func main(a [%d]uint64, b uint%d) (uint64, uint%d, uint64) {
+	v1 := a[0] ^ a[%d]
+	v2 := v1 + a[1]
+	v3 := v2 >> 3
+	return v2, b + uint%d(1), v3
+}
+`, n, m, m, n-1, m)
+	return &prog{Src: src, GIn: []string{inputFor(r, ta)}, EIn: []string{inputFor(r, tb)}, Class: "sweep",
+		Feat: map[string]bool{"wide_input": true, "boundary_sweep": true}}
 }
